@@ -264,6 +264,7 @@ def _wrap_read_parameter(orig):
             raise
         rec['raised'] = None
         rec['after'] = p.value if not isinstance(p.value, list) else list(p.value)
+        rec['obj'] = p                     # live reference: lets a later hook read the value that finally stands
         rec['sval_after'] = ParameterReadIn.sValue
         rec['provided'] = getattr(p, 'Provided', None)
         rec['units'] = str(getattr(getattr(p, 'CurrentUnits', None), 'value', getattr(p, 'CurrentUnits', None)))
